@@ -1,7 +1,7 @@
 //go:build verif
 
 // C15 - P4 datapath IDs stay exclusive and in their own pool under write failures. Engine SEQ with exhaustive fault
-// positions: for every Write index k inside every faulted operation of a scenario family (three failure shapes), followed
+// positions: for every Write index k inside every faulted operation of a scenario family (four failure shapes), followed
 // by further sessions that would receive any wrongly recycled ID; invariants evaluated after every step from the entries at
 // the fake switch and from the five pools read in-package.
 package pfcpiface
@@ -357,7 +357,7 @@ func TestVerifC15(t *testing.T) {
 		c15Run(res, cs)
 		return
 	}
-	shapes := []string{"transport", "p4err", "lost"}
+	shapes := []string{"transport", "p4err", "lost", "unknown-bare"}
 	item := 0
 	var ctxs, ops []string
 	for k := range c15Contexts {
